@@ -27,6 +27,7 @@ import (
 	"encoding/json"
 	"fmt"
 	"io"
+	"math/big"
 	"strings"
 
 	"github.com/danos/encoding/rfc7951"
@@ -228,16 +229,18 @@ func (jw *JSONWriter) writeValue(sn schema.Node, value string) {
 		// Write the raw value out as a native JSON type
 		jw.WriteString(value)
 	case schema.Uinteger:
-		// Write the raw value out as a native JSON type
-		if jw.rfc7951 && tt.BitWidth() > 32 {
+		// Write the value out as a native JSON type
+		value, isNum := jsonInteger(value)
+		if !isNum || (jw.rfc7951 && tt.BitWidth() > 32) {
 			buf, _ := json.Marshal(value)
 			jw.Write(buf)
 		} else {
 			jw.WriteString(value)
 		}
 	case schema.Integer:
-		// Write the raw value out as a native JSON type
-		if jw.rfc7951 && tt.BitWidth() > 32 {
+		// Write the value out as a native JSON type
+		value, isNum := jsonInteger(value)
+		if !isNum || (jw.rfc7951 && tt.BitWidth() > 32) {
 			buf, _ := json.Marshal(value)
 			jw.Write(buf)
 		} else {
@@ -252,6 +255,18 @@ func (jw *JSONWriter) writeValue(sn schema.Node, value string) {
 		buf, _ := json.Marshal(value)
 		jw.Write(buf)
 	}
+}
+
+// jsonInteger returns the integer in the form a JSON number has: YANG also
+// allows a leading '+' and leading zeros ("+5", "007"), JSON does not.  The
+// second result is false for text that is no integer at all, which can only
+// be written as a string.
+func jsonInteger(value string) (string, bool) {
+	i, ok := new(big.Int).SetString(value, 10)
+	if !ok {
+		return value, false
+	}
+	return i.String(), true
 }
 
 func (jw *JSONWriter) writeNullLeafValue(sn schema.Node) {
